@@ -119,6 +119,8 @@ def finish(ctx, t0, level_explanation, assumptions, seed=0):
         for rule, found, fl in broken:
             print('ANALYSIS-BROKEN property=%s rule=%s instances=%d below confirmed floor %d' % (prop, rule, found, fl))
         rc = 2
+    if os.environ.get('VERIF_DUMP'):
+        json.dump(sorted([r.rule, r.key, r.status] for r in ctx.results), open(os.environ['VERIF_DUMP'], 'w'))
     per_rule = {}
     for r in ctx.results:
         d = per_rule.setdefault(r.rule, {'ok': 0, 'violation': 0, 'note': 0})
